@@ -200,11 +200,11 @@ def get_gemini_obligations():
             det = {}
             if ok:
                 r = sts[0].ret
-                kw = dict(r[4]) if r[:1] == ("callres",) else {}
-                if r[2] == "MMDGEMINI":
-                    ok = kw == {"ovo": A("ovo"), "kernel": A("kernel"), "kernel_params": A("kernel_params")} and not r[3]
-                elif r[2] == "WassersteinGEMINI":
-                    ok = kw == {"ovo": A("ovo"), "metric": A("metric"), "metric_params": A("metric_params")} and not r[3]
+                # by keyword or by position: the arguments are read by parameter name
+                if r[:1] == ("callres",) and r[2] == "MMDGEMINI":
+                    ok = fx.argmap(r, ("ovo", "kernel", "kernel_params", "epsilon")) == {"ovo": A("ovo"), "kernel": A("kernel"), "kernel_params": A("kernel_params")}
+                elif r[:1] == ("callres",) and r[2] == "WassersteinGEMINI":
+                    ok = fx.argmap(r, ("ovo", "metric", "metric_params", "epsilon")) == {"ovo": A("ovo"), "metric": A("metric"), "metric_params": A("metric_params")}
                 else:
                     ok = False
                 det = {"returns": fx.show(r)}
